@@ -107,14 +107,19 @@ def _sub_names(pkg):
 def command(draw, pkg):
     subs = _sub_names(pkg)
     cmd = {"emit": draw(st.sampled_from(EMITS[:6] + EMITS)), "recursive": draw(st.booleans()),
-           "dry": draw(st.booleans()), "out": draw(st.sampled_from((0, 0, 0, 1))),
+           "dry": draw(st.booleans()), "out": draw(st.sampled_from((0, 0, 0, 1, 2))),
            "sa_sub": draw(st.integers(0, 3)) == 3, "bl": [], "wl": [], "fault": None,
            "restart": draw(st.integers(0, 9)) == 9, "module": None}
     if subs and draw(st.integers(0, 2)) >= 1:
         which = draw(st.sampled_from(("bl", "bl", "wl")))
         ents = draw(st.lists(st.sampled_from(subs), min_size=1, max_size=2, unique=True))
-        form = draw(st.sampled_from(("relative", "relative", "relative", "dotted", "fqn")))
-        cmd[which] = [{"relative": e, "dotted": "." + e, "fqn": pkg["name"] + "." + e}[form] for e in ents]
+        form = draw(st.sampled_from(("relative", "relative", "relative", "dotted", "fqn", "glob")))
+        if form == "glob" and which == "bl":
+            # `sub.*`: everything below sub, not sub itself (setuptools.find_packages' exclude semantics)
+            cmd[which] = [e + ".*" for e in ents]
+        else:
+            form = "relative" if form == "glob" else form
+            cmd[which] = [{"relative": e, "dotted": "." + e, "fqn": pkg["name"] + "." + e}[form] for e in ents]
         cmd["recursive"] = True
     if subs and draw(st.integers(0, 5)) == 5:
         cmd["module"] = pkg["name"] + "." + draw(st.sampled_from(sorted(pkg["subs"])))
@@ -198,8 +203,16 @@ def render_package(pkg):
     return files
 
 
+# the third output directory has a dot in one of its components (as ~/.cache/x, build.v2/out or a mktemp name have)
+OUT_DIRS = ("out0", "out1", "build.v2/out")
+
+
+def _out_rel(cmd):
+    return OUT_DIRS[cmd["out"] % len(OUT_DIRS)]
+
+
 def argv_of(plan, cmd):
-    out = "{ROOT}/out%d" % cmd["out"]
+    out = "{ROOT}/" + _out_rel(cmd)
     argv = ["exmod", "-m", cmd.get("module") or plan["pkg"]["name"], "--emit", cmd["emit"], "-o", out]
     if cmd["recursive"]:
         argv.append("-r")
@@ -244,6 +257,8 @@ def check_effects(world, cmd, out_rel, before, after, events, outcome_ok):
     else:
         pref = out_rel + os.sep
         outside = [p for p in changed if not (p == out_rel or p.startswith(pref))]
+        # creating the output directory changes the mtime of the (existing) directories above it: not a write "outside"
+        outside = [p for p in outside if not (p in modified and out_rel.startswith(p + os.sep))]
         if outside:
             v.append({"clause": "J2", "detail": "real run touched paths outside %s: %s" % (out_rel, outside[:6]),
                       "sig": {"what": "path_outside_output", "first": _kind_of(outside[0])}})
@@ -264,7 +279,7 @@ def check_effects(world, cmd, out_rel, before, after, events, outcome_ok):
 def _kind_of(rel):
     if rel.startswith("src"):
         return "src"
-    if rel.startswith("out"):
+    if rel.startswith("out") or rel.startswith("build.v2/out"):
         return "out"
     return "elsewhere"
 
@@ -316,6 +331,9 @@ def check_outputs(world, plan, cmd, out_rel, before, after, prior=None):
         return v, headers
     excluded = []  # (relative package, entry form)
     for e in cmd["bl"]:
+        if e.endswith(".*"):
+            excluded += [(d, "glob", "blacklist") for d in _sub_names(pkg) if d.startswith(e[:-1])]
+            continue
         r, form = _norm_entry(pkg, e)
         if r is not None:
             excluded.append((r, form, "blacklist"))
@@ -418,6 +436,7 @@ def simulate(plan, enumerate_all=None):
     files["notes.txt"] = "unrelated file next to the output directory\n"
     if plan.get("out_exists"):
         files["out0/keep.txt"] = "pre-existing unrelated file\n"
+    files["build.v2"] = None
     world.write_files(files)
     src_path = world.p("src")
     sys.path.insert(0, src_path)
@@ -438,7 +457,7 @@ def simulate(plan, enumerate_all=None):
                 proc.purge(("cdd",))
                 _warm[0] = False
                 warm_up()
-            out_rel = "out%d" % cmd["out"]
+            out_rel = _out_rel(cmd)
             op = {"cmd": "cli", "argv": argv_of(plan, cmd)}
             populated = any(p.startswith(out_rel + os.sep) and p.endswith(".py") for p in world.snapshot())
             cp = world.checkpoint()
